@@ -359,6 +359,9 @@ def coup_adjust(field, e):
 def run(ck):
     P = prog("K1")
     ck.configs.add("K1")
+    # the two header-CRC bytes are written only when both fit (Pending::extend asserts the room; round 9)
+    from . import c20 as _c20s
+    _c20s.resume_from_gzindex(ck, P)
     roots = compress_roots(P)
     ck.floor("ABORT:roots", len(roots), 25)
     api = {f.path for f in P.fns.values() if f.crate == "zlib_rs" and f.j.get("vis") == "Public" and P.callers_of(f.path) & set(roots)}
